@@ -57,7 +57,7 @@ def full_upper(n, f):
 
 CORPUS = [
     # D15 (known): trans_only, chromosomes of 2/3/5 bins
-    {"per": [2, 3, 5], "pixels": full_upper(10, lambda i, j: 1 + (3 * i + 5 * j + i * j) % 11), "o": mk(trans=True, tol=1e-6, iters=500)},
+    {"per": [2, 3, 5], "pixels": full_upper(10, lambda i, j: 1 + (3 * i + 5 * j + i * j) % 11), "o": mk(trans=True, tol=1e-2, iters=500)},
     # D15b (known): trans_only, equal bin counts
     {"per": [3, 3], "pixels": full_upper(6, lambda i, j: 1 + (2 * i + 7 * j) % 9), "o": mk(trans=True, tol=1e-8, iters=500)},
     {"per": [2, 2, 2], "pixels": full_upper(6, lambda i, j: 1 + (5 * i + 3 * j + i * j) % 13), "o": mk(trans=True, tol=1e-8, iters=500)},
@@ -73,6 +73,16 @@ CORPUS = [
      "o": mk(diags=1, mad=1, tol=1e-5)},
     {"per": [4, 2], "pixels": [[0, 1, 6], [0, 2, 6], [1, 2, 6], [1, 3, 6], [2, 3, 1], [0, 4, 3], [1, 5, 2], [4, 5, 7], [3, 3, 4]],
      "o": mk(diags=1, mad=2, count=7, tol=1e-5)},
+    # MAD-max: every marginal equal (cutoff == 1 exactly: strict "<" masks nothing); chromosomes of very different depth
+    {"per": [5], "pixels": full_upper(5, lambda i, j: 3), "o": mk(diags=0, mad=1, tol=1e-6)},
+    {"per": [3, 3], "pixels": full_upper(6, lambda i, j: 2), "o": mk(diags=1, mad=3, tol=1e-6)},
+    {"per": [4, 4], "pixels": [[i, j, (40 + i + j) if j < 4 else ((2 + (i + j) % 3) if i >= 4 else 1)] for i in range(8) for j in range(i, 8)],
+     "o": mk(diags=1, mad=2, tol=1e-6)},
+    {"per": [4, 3], "pixels": [[i, j, (30 + 3 * i + j) if j < 4 else ((1 + (i * j) % 4) if i >= 4 else 2)] for i in range(7) for j in range(i, 7)],
+     "o": mk(cis=True, diags=1, mad=1, nnz=1, tol=1e-6)},
+    # min_count exactly at a marginal, min_nnz exactly at a row count
+    {"per": [4], "pixels": [[0, 1, 4], [0, 2, 4], [1, 2, 2], [1, 3, 6], [2, 3, 2]], "o": mk(diags=1, count=8, tol=1e-6)},
+    {"per": [4], "pixels": [[0, 1, 4], [0, 2, 4], [1, 2, 2], [1, 3, 6], [2, 3, 2], [0, 0, 9]], "o": mk(diags=1, nnz=2, tol=1e-6)},
     # empty chromosome (all NaN there in cis mode), isolated bin
     {"per": [3, 2], "pixels": [[0, 1, 4], [0, 2, 2], [1, 2, 5], [3, 3, 6]], "o": mk(cis=True, diags=1, tol=1e-6)},
     {"per": [3, 2], "pixels": [[0, 1, 4], [0, 2, 2], [1, 2, 5], [0, 3, 6]], "o": mk(cis=True, diags=0, tol=1e-6, x0=[1.0, None, 2.0, 0.5, 0.0])},
@@ -300,8 +310,11 @@ def run(ctx):
             # flat, but outside [scale/(1+eps), scale/(1-eps)]: the theorem's stronger bound
             ctx.disagree("flatness_bound (unrescaled, against the reported scale)", case, det, "within bound")
         elif st.startswith("FAIL"):
+            # the known trans-only findings are claimed only for runs that otherwise behave as documented
+            # (weights equal to the dense reference); anything else stays an unknown violation
+            as_documented = fragile or G.vec_close(r["w"], G.assemble(n, groups, o["rescale"]), 1e-8)
             ctx.fail(case, {"what": "row sums of diag(w) F diag(w) over retained bins: " + st, **(det or {})},
-                     trans_signature(o, per))
+                     trans_signature(o, per) if as_documented else None)
         if o["trans"] and not trans_cw_flatness(o, per, F, r):
             ctx.disagree("trans_flatness (bound for w * cweights)", case, "outside", "within bound")
 
